@@ -264,6 +264,9 @@ def _helper_returned_index(ctx, p, fn, idx):
     return c, (c[2][cpos - 1] if cpos else None), pu
 
 
+CUTTERS = ('take', 'take_while', 'map_while', 'filter', 'filter_map', 'step_by', 'skip_while', 'truncate', 'drain', 'split_off', 'pop', 'retain', 'dedup', 'nth', 'last', 'next_back', 'split_at', 'split_first', 'split_last')
+
+
 def _branch_helpers(p):
     """private helpers of the planner that return the states of one branch as a plain vector (`fn branch(tree, idx) -> Vec<S>`)"""
     return {b.path: b for b in p['methods'] if 'Vec<S' in (b.j.get('ret_ty') or '') and not b.impl_trait and b.kind == 'AssocFn' and
@@ -312,6 +315,13 @@ def _goal(ctx, p, r_goal):
                     good = [v for v in verdicts if v[0]]
                     ok = bool(good)
                     why = '; '.join(v[1] for v in verdicts if not v[0])
+            # the branch that ends the path is used whole: an adaptor that can drop elements between the extraction and the
+            # returned vector (`take(n)`, `take_while`, `filter`, `step_by`, ..) may cut off the goal-satisfying end of the branch
+            cut = sorted({n[1].rsplit('::', 1)[-1] for n in walk(val) if n[0] == 'call' and n[1].rsplit('::', 1)[-1] in CUTTERS and
+                          n[1].startswith(('std::iter::', 'core::iter::', 'std::vec::', 'std::slice::', 'core::slice::'))})
+            if ok and calls and cut:
+                ok = False
+                why = 'the returned path is passed through %s after the extraction: the end of the branch (the node the goal query was made on) can be cut off' % ', '.join(cut)
             r_goal.inst('%s: Ok at %s ends in a goal-satisfying node' % (b.path, fn.loc(ob, osi)), ok=ok, site=fn.loc(ob, osi))
             if not ok:
                 r_goal.violations.append(Violation('C02', 'C02.goal', b.path, 'ok-return', why, loc=fn.loc(ob, osi), ordinal=o))
